@@ -111,6 +111,21 @@ class Ctx:
                             v2 = self._assumed(v, _d + 1)
                             if v2[0] == "const" and v2[1] == "bool":
                                 return v2
+        if self.assumptions and t[0] == "call" and t[1].split("::")[-1] in ("call", "call_once", "call_mut") and "ops::Fn" in t[1] and t[2] and t[2][0][0] == "closure" and _d < 2:
+            # a local closure called on the spot (`let is_monitor = || ..; if is_monitor() ..`)
+            clo = t[2][0]
+            cb = self.prog.body(clo[1])
+            if cb is not None and self.level < 3:
+                caps = {n: v for _, n, v in clo[2]}
+                cc = Ctx(cb, captures=caps, assumptions=self.assumptions)
+                cc.level = self.level + 1
+                rt = cc.settle().T.return_term()
+                if rt[0] == "const" and rt[1] == "bool":
+                    return rt
+                if rt[0] in ("call", "bin", "un"):
+                    v2 = self._assumed(rt, _d + 1)
+                    if v2[0] == "const" and v2[1] == "bool":
+                        return v2
         if self.assumptions and getattr(self, "prog", None) is not None and t[0] == "call":
             # a boolean computed by a small local function: evaluate it under the same assumptions
             cb = _callee_body(self.prog, t)
